@@ -262,12 +262,15 @@ class DirectedMultigraph : private LabeledDirectedGraph<EdgeMultiplicity> {
         assertVertexInRange(vertex);
 
         auto &successors = adjacencyList[vertex];
+        const Successors formerSuccessors = successors;
         auto j = successors.begin();
         while (j != successors.end()) {
             totalEdgeNumber -= getEdgeLabel(vertex, *j, false);
             successors.erase(j++);
             edgeNumber--;
         }
+        for (const VertexIndex &successor : formerSuccessors)
+            edgeLabels.erase({vertex, successor});
         for (VertexIndex i = 0; i < size; ++i)
             removeAllEdges(i, vertex);
     }
